@@ -22,6 +22,8 @@ const (
 	FRep                 // residue representative used by the systematic history sweep
 	FGrown               // found by coverage-guided growth on the current tree
 	FFamily              // member of a token family (same word in SQLi and XSS syntactic positions)
+	FHuge                // 70 kB .. 1.1 MB, mostly one token: only used by the huge-first sweep and the pair sweep
+	FSplice              // two or three inputs joined by quotes (positive in several parsing contexts)
 	FPadded              // a fixture/literal padded with benign filler to 0.6-9 kB (crosses length thresholds, keeps its head)
 )
 
